@@ -143,7 +143,20 @@ def search(ctx):
             for l in lits:
                 out.append("C10.emit\t%s.%s\t%s" % (tgt, ctx, l))
         for l in ["5", "0x10u", "017", "2147483647", "2147483648"]:
-            for ctx in ("arr", "enumv", "enumcast", "targ", "initneg", "paste"):
+            for ctx in ("arr", "enumv", "enumcast", "targ", "initneg", "paste", "case", "attr", "unroll", "larr", "garr", "parr",
+                        "arr2", "index", "enum2", "pattr", "caseneg", "tdarr", "gsarr"):
+                out.append("C10.emit\t%s.%s\t%s" % (tgt, ctx, l))
+        # declaration / statement forms (wave 6)
+        for ctx in ("ret", "callarg", "defarg", "defarg2", "protoarg", "method", "nsinit", "arrinit", "arrinit2", "local", "localc",
+                    "gvar", "binop", "tern", "ctor", "swz", "assign", "forinit", "pgvar", "plocal", "retneg", "defargneg",
+                    "arrinitneg", "callargneg", "ifc", "whilec", "forstep", "plus", "comma", "swzbare"):
+            for l in ["7", "0x10u", "0.1", "0.1f", "0.1h", "0.1L", "2.0", "2.0f", "1.#INF", "1.#INFf", "1e39", "3.4028235e38f",
+                      "7.038530691851209e-26f", "16777217.0"]:
+                out.append("C10.emit\t%s.%s\t%s" % (tgt, ctx, l))
+        # cross-kind forms: an untyped literal folded into half / float / double
+        for ctx in ("xhlocal", "xhret", "xhdefarg", "xhinit", "xflocal", "xfcallarg", "xfarrinit", "xfbinop", "xdlocal", "xdinit"):
+            for l in ["7", "017", "0x10", "16777217", "2147483647", "0.1", "1.5", "1e39", "1.#INF", "3.4028234663852886e38", "1e-46",
+                      "7.038530691851209e-26", "1.0000000596046448"]:
                 out.append("C10.emit\t%s.%s\t%s" % (tgt, ctx, l))
     return out
 
@@ -160,7 +173,7 @@ SPEC = {
         "float_parts_shape_as_modelled", "lex_float_nearest", "nearest64_total", "nearest64_correct", "nearest64_zero",
         "nearest_correct_partial", "nearest_correct", "nearest_monotone", "nearest64_monotone",
         "nearest_exact_on_representable",
-        "literal_tables_as_modelled", "msl_double_literal_rejected", "emit_int_exact", "emit_value_exact", "emit_whole_value_exact",
+        "literal_tables_as_modelled", "literal_fold_as_modelled", "msl_double_literal_rejected", "emit_int_exact", "emit_value_exact", "emit_whole_value_exact",
         "emit_infinity_exact", "emit_negative_exact", "emit_f32_double_rounding_repaired",
         "multi_file_spans_in_file", "multi_file_error_in_file"]],
     "harness": "c10",
@@ -205,7 +218,11 @@ SPEC = {
                   "Metal generate_literal (all 15 arms of both generators pinned with their results) builds no Float64 "
                   "literal but returns UnsupportedDouble, and format_literal fails only at write_infinity_f64's "
                   "`invalid msl` site, which needs exactly that node (msl_double_literal_rejected; after fix 9824ce3); "
-                  "an integer constant no literal can carry is IntLiteralOutOfRange in both generators (6017bad). The assumptions are "
+                  "an integer constant no literal can carry is IntLiteralOutOfRange in both generators (6017bad). Between parse_literal "
+                  "and generate_literal the payload of a literal is rewritten in one place only, the typer's folding of an untyped "
+                  "literal into the scalar type its context names (casting.rs): its 14 arms are re-extracted every run and are "
+                  "each a single `as` cast of the payload, `v as f32` for float/half = the one narrowing (literal_fold_as_modelled, "
+                  "shape obligation; which declaration and statement forms lead there is covered by the emit stream only). The assumptions are "
                   "checked bit for bit on every generated value and, in the thorough tier, on all 2^31 non-negative "
                   "singles: the Display digits of exactly one single, 0x15ae43fd, do not read back through the double; "
                   "since fix 265a080 format_literal prints it as 0.00000000000000000000000007038530691851209f, which "
@@ -227,18 +244,32 @@ SPEC = {
             "texts: an independent scanner decides from the spelling which ONE token it is (kind, exact value by the "
             "big-integer reference) and the real lexer must return exactly that token with exactly the numeral's span, or "
             "IntegerLiteralTooLarge at its first digit when it does not fit; C10.emit: literals (random bit patterns of every float kind spelled "
-            "exactly, all integer spellings) x targets dx/vk/msl x 14 contexts (statement, unary minus, typed "
+            "exactly, all integer spellings) x targets dx/vk/msl x 12 original contexts (statement, unary minus, typed "
             "initialisers, array size, enum value, enum cast, template argument, macro from an included file, define "
-            "passed to compile, ## paste) through rssl::compile, printed literal re-read by an exact reference; C10.fmt: "
+            "passed to compile, ## paste) and 53 declaration / statement forms (wave 6: return, call argument, default "
+            "argument on a definition / second of two / on prototype and definition / on a method, constant in a namespace, "
+            "array initialiser of 2 and 3, local, const local, mutable global, operand, ternary arm, vector constructor, "
+            "swizzled literal with and without parentheses, assignment, for initialiser / bound / step, if / while condition, "
+            "unary plus, comma, case label, numthreads on a function and on the entry point of a pipeline (pipeline mode; "
+            "Metal's max_total_threads_per_threadgroup), unroll count, array size of a local / global / parameter / second "
+            "dimension / typedef / groupshared array, index, enumerator followed by an implicit one, global and local of an "
+            "entry point, and the negated literal in return / default argument / array initialiser / call argument / case "
+            "label; 10 cross-kind forms: an untyped integer or float literal as local / return value / default argument / "
+            "constant / call argument / array element / operand of type half, float or double — the value folded into that "
+            "type: integers exactly, floats narrowed once) through rssl::compile, printed literal re-read by an exact reference (an untyped float in a context "
+            "that names float may be printed as the single it narrows to once); C10.fmt: "
             "rssl_formatter on an AST literal of random bits (8 kinds x 2 targets, both signs, infinities, whole values "
             "around 2^63, subnormals, the neighbourhood of 0x15ae43fd), printed text lexed by the real lexer, "
             "model-compared; C10.sweep32: Display of every 61st (thorough: every) single read back through the double, "
             "and the real formatter on each single for which that is not the value (both single kinds, targets, signs): "
             "its text must lex back to the value; C10.pp: generated 1-3 file programs with "
-            "defines, object/function macros, ## pastes, conditionals, #pragma once through the real preprocessor: every "
+            "defines, object/function macros, ## pastes, conditionals (#if/#ifdef/#ifndef/#elif/#else with constants, operators, "
+            "literals of three bases, defined X / defined(X)), unknown directives inside skipped blocks, \"name\" and <name> "
+            "includes, spaced directives, null directives, #pragma once / warning through the real preprocessor: every "
             "token's span decodes to one file, is a token of that file's own tiling, a probe diagnostic at both ends "
             "renders inside the file; C10.loc: the location decoder on those managers (model-compared); C10.diag: "
-            "programs with one injected error at one of 12 slots (entry file, two headers, macro bodies, define, paste) "
+            "programs with one injected error at one of 19 slots (entry file, two headers, macro bodies, define, paste, default "
+            "argument, method body, namespace constant, case label, array size, attribute argument, template body) "
             "x 7 error kinds through preprocess+parse+type check: every printed position inside a loaded file; "
             "non-trivial = at least three tokens or a numeric literal (lex), a printed literal (emit/fmt), tokens from "
             "two or more files (pp), a located diagnostic (diag)",
@@ -257,6 +288,9 @@ SPEC = {
         "tools/gens/c10.py LitFormatTables (arms of format_literal, write_infinity_*, generate_literal hlsl/msl with "
         "every result, parse_literal) pinned by literal_tables_as_modelled; hand-written Model/LitFormat.lean mirrors format_literal "
         "and is compared with rssl_formatter on every C10.fmt case",
+        "tools/gens/c10.py LitFormatTables.literalFoldArms (the two literal-folding matches of typer/src/casting.rs) pinned by "
+        "literal_fold_as_modelled; that Rust's `as` casts are the conversions their names say is trusted and compared with the "
+        "exact reference narrowing on every C10.emit case",
         "Model/SourceMap.lean + Gen.SourceMapTables (C14's model of text/src/location.rs), compared with the real "
         "SourceManager on every C10.loc case",
         "Rust's Display for f64/f32 (shortest round-trip digits): the hypotheses of emit_value_exact (plain digits, '.' iff "
@@ -272,6 +306,15 @@ SPEC = {
         "output clause: the emitted text is read with the literal grammar of rssl itself (nearest double, narrowed once "
         "for f/h); what DXC or the Metal compiler make of a literal is outside the property; MSL names INFINITY / FLT_MAX "
         "stand for their values",
+        "covered by the correspondence run and its oracle only (no Lean model of parser / typer / generators, the driver answers "
+        "`unsupported` for C10.emit, C10.pp, C10.diag): which declaration and statement forms carry a literal from parse_literal "
+        "to generate_literal unchanged (the 53 forms of wave 6 incl. default arguments, prototypes, methods, namespaces, "
+        "pipeline entry points, attributes, array sizes); the functions on that path that rewrite a literal's payload "
+        "(parse_literal, casting.rs folding, generate_literal, format_literal) are pinned arm by arm",
+        "a default argument written on a function PROTOTYPE only is lost in the emitted text: known finding of C04 / C01 / C05, "
+        "not re-listed here; the C10 stream writes the default on the definition (and on both)",
+        "not applicable in rssl (rejected by the front end, checked in wave 6): default template arguments on functions, struct "
+        "templates in the generators, enum-typed template arguments from a cast literal, bit-field widths",
         "literals that the typer converts (an untyped literal initialising a float, an int literal outside int as a "
         "template argument) are compared after that conversion (C13's domain); NaN and i64::MIN have no literal and are "
         "not reachable from source",
